@@ -66,6 +66,8 @@ package pipeline
 //     otherwise left untouched for the main output's commit.
 
 //@ func (*RetriableBatcher).Out
+//@   ghost e0ref int = ref(batch.events)
+//@   ghost e0len int = len(batch.events)
 //@   ghost calls int = 0
 //@   ghost lastnil bool = false
 //@   ghost nerr int = 0
@@ -84,7 +86,7 @@ package pipeline
 //@     set lastnil := err == nil
 //@   callee onRetryError(err, events)
 //@     requires nerr == 0 && !lastnil
-//@     requires batch != nil ==> events == batch.events
+//@     requires batch != nil ==> ref(events) == e0ref && len(events) == e0len
 //@     pure
 //@     set nerr := nerr + 1
 //@   callee NewTimer(d)
@@ -207,7 +209,11 @@ package pipeline
 //@   bind trySendBatchAndUnlock lastSize := 0
 //@   ensures !held(b.mu)
 //@   callee Sleep(d)
+//@     requires 0 < d && d <= 100000000
 //@     pure
+
+// (Bounded staleness: the age of the current batch is re-evaluated at least every
+// 100 ms, whatever happened before - the "scheduling slack" of the flush timeout.)
 
 // commitBatch: waits for its turn (commitSeq == batch.seq), then commits every
 // event of the batch exactly once, in index order, while holding seqMu, and only
@@ -574,13 +580,21 @@ package pipeline
 //@   ghost a0 int = 0
 //@   requires event != nil && event.action >= 0 && event.kind != EventKindTimeout
 //@   requires len(p.busyActions) == len(p.actions) && len(p.actionInfos) == len(p.actions)
+//@   ghost released bool = false
 //@   setat "event.action++" a0 := event.action
 //@   callee tryResetBusy(i)
 //@     requires i == a0
 //@     preserves Event
 //@     ensures len(p.actions) == old(len(p.actions)) && len(p.busyActions) == old(len(p.busyActions)) && len(p.actionInfos) == old(len(p.actionInfos))
+//@     set released := true
 //@   callee processSequence(e)
 //@     requires e == event && e.action == a0 + 1
+//@     requires released
+
+// (The holder is released before the held event continues: while it travels on,
+// a later action that does not pass it must not find the holder still counted as
+// busy - processEvent would then pull the next events of the stream from inside
+// this nested call, ahead of the event that triggered the flush.)
 
 // finalize: the single exit of an event.  Timeout and child events are not
 // accounted.  A regular event notifies the input iff asked to, before the
@@ -770,3 +784,15 @@ package pipeline
 //@     ensures r != nil && fresh(r)
 //@   callee mapupdate:streams[](k, v)
 //@     requires uf_viewref(k) == 0
+
+// ---------------------------------------------------------------------------
+// C04: makeCharged puts the stream on the charged list and wakes one processor -
+// on every call: a Signal wakes exactly one sleeper, so a call without Signal can
+// leave a charged stream unattended while processors sleep in joinStream.
+
+//@ func (*streamer).makeCharged
+//@   ghost nsig int = 0
+//@   ensures nsig == 1
+//@   callee Signal()
+//@     pure
+//@     set nsig := nsig + 1
